@@ -15,4 +15,9 @@ CLAIMED = {
   text="Every tuple of the boundary set must parse and every ordered pair of same-arity tuples must compare as the integer tuples; every accepted pre/post marker spelling must sort strictly below/above its unmarked tuple. The space is finite and enumerated completely.",
   note="The quantifier's 'random values' are replaced by the deterministic boundary set {0,1,2,9,10,11,99,100,999,1000,65535,2^31-1}; marker direction tables come from each ecosystem's documentation; composer patch/pl, mattermost -esr, alpm pkgrel and build metadata are not claimed.",
   ref="DESIGN.md 4 (C03)"),
+ "C10": dict(
+  technique="bounded-exhaustive enumeration of dpkg-valid version strings (token grammar + all strings <= L) x all ordered pairs on the real Compare against a Go port of dpkg's verrevcmp, the port itself replayed against Dpkg::Version/dpkg",
+  text="All ordered pairs of the enumerated dpkg-valid universe are compared on the real code and must give the reference sign; the reference is a straight port of dpkg's algorithm whose agreement with the installed dpkg is re-established by replaying the same universe (thorough tier).",
+  note="Trusted base: the Go port (engine/ref/debian.go) and the installed dpkg 1.21.22 used to validate it. Strings outside the enumerated universe are not covered.",
+  ref="DESIGN.md 4 (C10), Appendix A.3"),
 }
